@@ -236,7 +236,7 @@ func c02FnRunW(c c02Failer, s c02FnScenario) {
 		c.NonTrivial()
 	}
 	// the generated record itself must satisfy the invariants (generator check)
-	if msg, _ := c02CheckRecord(c02FnCopy(enis), enis, views, ever, tainted, s.ERDMA); msg != "" {
+	if msg, _ := c02CheckRecord(c02FnCopy(enis), enis, views, ever, tainted, s.V4 && s.V6, s.ERDMA); msg != "" {
 		panic("harness: generated record violates the invariants: " + msg)
 	}
 	rounds := 1
@@ -265,7 +265,7 @@ func c02FnRunW(c c02Failer, s c02FnScenario) {
 			c.Label("released-first")
 		}
 		assignIPFromLocalPool(logr.Discard(), reqs, ipv4Map, ipv6Map, s.ERDMA)
-		msg, facts := c02CheckRecord(prev, enis, views, ever, tainted, s.ERDMA)
+		msg, facts := c02CheckRecord(prev, enis, views, ever, tainted, s.V4 && s.V6, s.ERDMA)
 		for f := range facts {
 			switch {
 			case len(f) > 6 && f[:6] == "taint:":
